@@ -428,7 +428,7 @@ func (c *Config) Op(t *rapid.T) Op {
 	case "tpldoc2":
 		o.Data = c.data(t, &o)
 		o.Data2 = c.data(t, &o)
-		o.B = []bool{rapid.IntRange(0, 3).Draw(t, "addph") != 0}
+		o.B = []bool{rapid.IntRange(0, 3).Draw(t, "addph") != 0, rapid.IntRange(0, 2).Draw(t, "sametd") == 0}
 		if o.b(0) { // both renders get a picture for the placeholder, of independently drawn formats
 			o.Data.Imgs = map[string]gen.Img{"p": gen.Image(t, "dimg1")}
 			o.Data2.Imgs = map[string]gen.Img{"p": gen.Image(t, "dimg2")}
